@@ -152,29 +152,41 @@ def setters_and_queries(chk):
     fq = "grid.basegrid.Grid.get_localgrid"
     cx = [z3.Real(f"c{k}") for k in range(3)]
     rad = z3.Real("radius")
+    cx2 = [z3.Real(f"d{k}") for k in range(3)]
+    rad2 = z3.Real("radius2")
     k0 = z3.Int("k0")
 
     def scenario(eng_, which):
         log = TreeLog()
         install_tree(eng_, log)
         base = install_array_of_indexlist(eng_)
+        eng_.generic_indices = [k0]
         try:
-            eng_.assume(z3.And(N >= 1, rad >= 0, k0 >= 0))
+            eng_.assume(z3.And(N >= 1, rad >= 0, rad2 >= 0, k0 >= 0))
             g = eng_.new_object(cls_g, pts_arr(P), wts_arr())
             center = I.Arr((3,), lambda c: M.select_const(c, [lambda v=v: v for v in cx]), "real")
             res = {}
+            qb = None
             if which == "fresh-query":
                 lg = eng_.call_method(g, "get_localgrid", center, rad)
                 res = dict(lg=lg, g=g, log=log)
             elif which == "second-query-reuses":
                 eng_.call_method(g, "get_localgrid", center, rad)
+                qb = len(log.queries)
                 lg = eng_.call_method(g, "get_localgrid", center, rad)
+                res = dict(lg=lg, g=g, log=log)
+            elif which == "second-query-other-centre-and-radius":
+                eng_.call_method(g, "get_localgrid", center, rad)
+                qb = len(log.queries)
+                center2 = I.Arr((3,), lambda c: M.select_const(c, [lambda v=v: v for v in cx2]), "real")
+                lg = eng_.call_method(g, "get_localgrid", center2, rad2)
                 res = dict(lg=lg, g=g, log=log)
             elif which == "query-after-points-reassigned":
                 eng_.call_method(g, "get_localgrid", center, rad)
                 frame = I.Frame(eng_, cls_g.module, I.Env(), cls_g, g, "harness")
                 frame.setattr(g, "points", pts_arr(P2))
                 after_set = g.fields.get("_kdtree")
+                qb = len(log.queries)
                 lg = eng_.call_method(g, "get_localgrid", center, rad)
                 res = dict(lg=lg, g=g, log=log, after_set=after_set)
             elif which == "weights-reassigned":
@@ -182,16 +194,20 @@ def setters_and_queries(chk):
                 W2 = z3.Function("Wnew", IS, RS)
                 frame = I.Frame(eng_, cls_g.module, I.Env(), cls_g, g, "harness")
                 frame.setattr(g, "weights", I.Arr((N,), lambda i: W2(T.zi(i)), "real"))
+                qb = len(log.queries)
                 lg = eng_.call_method(g, "get_localgrid", center, rad)
                 res = dict(lg=lg, g=g, log=log, W2=W2)
             elif which == "infinite-radius":
                 lg = eng_.call_method(g, "get_localgrid", center, T.INF)
                 res = dict(lg=lg, g=g, log=log)
+            res["queries_before_last_call"] = qb if qb is not None else 0
             return res
         finally:
+            eng_.generic_indices = []
             eng_.models["numpy.array"] = I.Model("numpy.array", base)
 
-    for which in ("fresh-query", "second-query-reuses", "query-after-points-reassigned", "weights-reassigned", "infinite-radius"):
+    for which in ("fresh-query", "second-query-reuses", "second-query-other-centre-and-radius", "query-after-points-reassigned", "weights-reassigned",
+                  "infinite-radius"):
         outs = chk.explore(f"Grid.get_localgrid/{which}", lambda e, which=which: scenario(e, which), func=fq)
         rets = [o for o in outs if o.kind == "return"]
         chk.add(f"Grid.get_localgrid/{which}/post/returns", [], z3.BoolVal(bool(rets)), func=fq, meta={"replay": {"what": which}})
@@ -209,6 +225,16 @@ def setters_and_queries(chk):
                                T.zi(lg.fields["_indices"].fn(k0)) == k0), func=fq, meta={"replay": rep})
                 chk.add(f"Grid.get_localgrid/{which}/post/no-tree-needed{sfx}", [], z3.BoolVal(len(log.built_from) == 0), func=fq, meta={"replay": rep})
                 continue
+            ccur, rcur = (cx2, rad2) if which == "second-query-other-centre-and-radius" else (cx, rad)
+            Wcur = v.get("W2", Wt)
+            if len(log.queries) == v["queries_before_last_call"]:
+                # the last call answered without asking the tree: it must have returned the whole grid and every point must lie in the ball
+                inball = T.UF1["sqrt"](sum(((Fcur(k0, c) - ccur[c]) * (Fcur(k0, c) - ccur[c]) for c in range(3)), z3.RealVal(0))) <= rcur
+                lp = lg.fields["_points"]
+                chk.add(f"Grid.get_localgrid/{which}/post/answer-without-tree-is-the-whole-grid-and-every-point-is-in-the-ball{sfx}", hy + [k0 < N],
+                        z3.And(T.zi(lp.shape[0]) == N, *[T.zr(lp.fn(k0, c)) == Fcur(k0, c) for c in range(3)], T.zr(lg.fields["_weights"].fn(k0)) == Wcur(k0),
+                               T.zi(lg.fields["_indices"].fn(k0)) == k0, inball), func=fq, meta={"replay": rep}, assumptions=list(o.assumptions))
+                continue
             # which tree answered the last query, and from which array was it built?
             tree_id, qc, qr = log.queries[-1]
             built = log.built_from[tree_id]
@@ -216,8 +242,9 @@ def setters_and_queries(chk):
             chk.add(f"Grid.get_localgrid/{which}/inv/tree-built-from-current-points{sfx}", hy + [k0 < N],
                     z3.And(*[T.zr(built.fn(k0, c)) == Fcur(k0, c) for c in range(3)]), kind="inv-use", func=fq, meta={"replay": rep})
             chk.add(f"Grid.get_localgrid/{which}/post/query-uses-centre-and-radius{sfx}", hy,
-                    z3.And(T.zr(qr) == rad, *[T.zr(qc.fn(c)) == cx[c] for c in range(3)]), func=fq, meta={"replay": rep})
-            expect_builds = {"fresh-query": 1, "second-query-reuses": 1, "query-after-points-reassigned": 2, "weights-reassigned": 1}[which]
+                    z3.And(T.zr(qr) == rcur, *[T.zr(qc.fn(c)) == ccur[c] for c in range(3)]), func=fq, meta={"replay": rep})
+            expect_builds = {"fresh-query": 1, "second-query-reuses": 1, "query-after-points-reassigned": 2, "weights-reassigned": 1,
+                             "second-query-other-centre-and-radius": 1}[which]
             chk.add(f"Grid.get_localgrid/{which}/post/number-of-tree-builds{sfx}", [], z3.BoolVal(len(log.built_from) == expect_builds), func=fq, meta={"replay": rep})
             if which == "query-after-points-reassigned":
                 chk.add(f"Grid.points.setter/inv/stale-tree-dropped{sfx}", [], z3.BoolVal(v["after_set"] is None), kind="inv-step", func="grid.basegrid.Grid.points",
@@ -225,14 +252,13 @@ def setters_and_queries(chk):
             # the local grid is the selection by the tree's index list
             idx = lg.fields["_indices"]
             cnt = CNT(q)
-            Wcur = v.get("W2", Wt)
             chk.add(f"Grid.get_localgrid/{which}/post/local-grid-is-selection-by-ball-indices{sfx}", hy + [k0 < cnt, IDX(q, k0) >= 0, IDX(q, k0) < N],
                     z3.And(T.zi(idx.shape[0]) == cnt, T.zi(idx.fn(k0)) == IDX(q, k0), T.zi(lg.fields["_points"].shape[0]) == cnt,
                            *[T.zr(lg.fields["_points"].fn(k0, c)) == Fcur(IDX(q, k0), c) for c in range(3)],
                            T.zr(lg.fields["_weights"].fn(k0)) == Wcur(IDX(q, k0))), func=fq, meta={"replay": rep})
             chk.add(f"Grid.get_localgrid/{which}/post/index-array-is-integer-typed-even-when-empty{sfx}", [],
                     z3.BoolVal(idx.dtype == "int" and (idx.tag is None or idx.tag[2])), func=fq, meta={"replay": rep})
-            chk.add(f"Grid.get_localgrid/{which}/post/centre-kept{sfx}", hy, z3.And(*[T.zr(lg.fields["_center"].fn(c)) == cx[c] for c in range(3)]), func=fq,
+            chk.add(f"Grid.get_localgrid/{which}/post/centre-kept{sfx}", hy, z3.And(*[T.zr(lg.fields["_center"].fn(c)) == ccur[c] for c in range(3)]), func=fq,
                     meta={"replay": rep})
             chk.add(f"Grid.get_localgrid/{which}/post/result-is-LocalGrid{sfx}", [], z3.BoolVal(lg.cls.name == "LocalGrid" and lg.fields.get("_kdtree", 0) is None),
                     func=fq, meta={"replay": rep})
